@@ -102,7 +102,7 @@ def verify_translated(run, fid, py, text, contract, callees=None, vc_filter=None
     return out
 
 
-def report(run, results, on_failed=None):
+def report(run, results, on_failed=None, on_unknown=None):
     """default reporting of translated-function VCs"""
     if results is None:
         return
@@ -116,7 +116,15 @@ def report(run, results, on_failed=None):
                        reproduced=info.get("reproduced"), observed=info.get("observed"), solver_output=r.output[:2000],
                        seconds=r.seconds)
         else:
-            run.undecided_ob(name, "cppvc", r.solver, f"solver answered {r.verdict}", r.seconds)
+            info = on_unknown(vc, r) if on_unknown else None
+            if info and info.get("reproduced"):
+                # the solver could not decide, but the kernels compiled from this tree give a wrong value on a concrete input
+                run.failed(name, "cppvc", r.solver, what=f"{vc.kind} (C++ line {vc.lineno}): solver undecided ({r.verdict}); a bounded search on the "
+                           f"kernels compiled from the tree found a failing input: {str(info.get('observed'))[:200]}",
+                           counterexample=info.get("observed"), replay=info.get("replay", {"kind": "accuracy"}), reproduced=True,
+                           observed=info.get("observed"), solver_output=r.output[:1000], seconds=r.seconds)
+            else:
+                run.undecided_ob(name, "cppvc", r.solver, f"solver answered {r.verdict}", r.seconds)
 
 
 def check_binomial(run):
